@@ -320,11 +320,43 @@ func genC01(rng *Rng, thorough bool, emit func(*Scenario)) {
 		long100[k] = 'a' + long100[k]%26
 	}
 	for pi, pl := range [][]byte{{0x80}, {0xFF}, {0x9C}, {0x7F}, {0x00, 0x80}, {0xFF, 0xFF}, {0x00, 0x00, 0x00, 0x80}, {0xFF, 0xFF, 0xFF, 0xFF},
-		{0, 0, 0, 0, 0, 0, 0, 0x80}, {0xFF, 0xFF, 0xFF, 0xFF, 0xFF, 0xFF, 0xFF, 0xFF}, {1, 2, 3}, {1, 2, 3, 4, 5, 6, 7, 8, 9}, rng.Bytes(12), rng.Bytes(32), long44, long100} {
+		{0, 0, 0, 0, 0, 0, 0, 0x80}, {0xFF, 0xFF, 0xFF, 0xFF, 0xFF, 0xFF, 0xFF, 0xFF}, {1, 2, 3}, {1, 2, 3, 4, 5, 6, 7, 8, 9}, rng.Bytes(12), rng.Bytes(32), long44, long100,
+		rng.Bytes(125), rng.Bytes(128), rng.Bytes(255), rng.Bytes(1000)} {
 		a := []uint16{0xEDF0, 0x0000, 0x010A, 0xFFFF}[pi%4]
 		for _, kind := range getKinds {
 			emit(getScenario("c01-decode", kind, a, [][][]byte{one(simGet(a, 0, pl))}))
 			emit(getScenario("c01-decode", kind, a, [][][]byte{{[]byte("\r\nV\t12800\r\n"), simGet(a+1, 0, pl)}, one(simGet(a, 0, pl))}))
+		}
+	}
+	// a ':' followed by k x 4096 bytes without a newline and then the tail of a good frame: the line is not a frame
+	for _, k := range []int{1, 2} {
+		for _, off := range []int{0, -1, 1} {
+			a := uint16(0xEDF0)
+			good := simGet(a, 0, []byte{0x96, 0x00})
+			junk := make([]byte, k*4096+off)
+			for i := range junk {
+				junk[i] = "0123456789ABCDEF VI."[rng.Intn(20)]
+			}
+			line := append(append([]byte(nil), junk...), good[1:]...)
+			chunks := [][]byte{{':'}} // the start marker on its own, then 1 KiB chunks (keeps Reads and chunks one to one)
+			for len(line) > 0 {
+				n := min(1024, len(line))
+				chunks = append(chunks, line[:n])
+				line = line[n:]
+			}
+			for _, kind := range []string{"uint", "raw"} {
+				sc := getScenario("c01-overlong-line", kind, a, [][][]byte{chunks})
+				sc.NoAccept = true
+				emit(sc)
+			}
+			idl := append(append([]byte(nil), junk...), []byte("156A05E\n")...)
+			ic := [][]byte{{':'}}
+			for len(idl) > 0 {
+				n := min(1024, len(idl))
+				ic = append(ic, idl[:n])
+				idl = idl[n:]
+			}
+			emit(&Scenario{Tag: "c01-overlong-line", Replies: [][][]byte{ic}, Calls: []Call{{Kind: "devid", Want: "err:other"}}, NoAccept: true})
 		}
 	}
 	// device id: Done frames and their corruptions
@@ -459,7 +491,25 @@ func genC02(rng *Rng, thorough bool, emit func(*Scenario)) {
 	emitStr := func(tag string, s []byte, pad int) {
 		a := addrs[(len(s)+pad)%len(addrs)]
 		p := append(append([]byte(nil), s...), make([]byte, pad)...)
-		emit(&Scenario{Tag: tag, Replies: [][][]byte{one(simGet(a, 0, p))}, Calls: []Call{{Kind: "str", Addr: a, Want: "ok:" + HEX(trimNulGo(p))}}})
+		// the four logger configurations take turns: what is returned must not depend on them
+		cfg := 0
+		if tag != "str-2" {
+			cfg = (len(s)*7 + pad + int(a)) % 4
+		}
+		emit(&Scenario{Tag: tag, Cfg: cfg, Replies: [][][]byte{one(simGet(a, 0, p))}, Calls: []Call{{Kind: "str", Addr: a, Want: "ok:" + HEX(trimNulGo(p))}}})
+	}
+	// values far longer than any register of today: 125 ... 1000 bytes (frames of up to 2009 characters)
+	for _, l := range []int{100, 124, 125, 126, 128, 200, 255, 256, 1000} {
+		t := rng.Bytes(l)
+		for i := range t {
+			if t[i] == 0 {
+				t[i] = 1
+			}
+		}
+		emitStr("str-long", t, l%3)
+		a := addrs[l%len(addrs)]
+		emit(&Scenario{Tag: "uint-long", Replies: [][][]byte{one(simGet(a, 0, t))}, Calls: []Call{{Kind: "uint", Addr: a, Want: "ok:" + strconv.FormatUint(leU(t), 10)}}})
+		emit(&Scenario{Tag: "raw-long", Replies: [][][]byte{one(simGet(a, 0, t))}, Calls: []Call{{Kind: "raw", Addr: a, Want: "ok:" + HEX(t)}}})
 	}
 	emitStr("str-empty", nil, 0)
 	emitStr("str-empty", nil, 5)
